@@ -242,6 +242,8 @@ pub struct Gen {
     pub ex_members_send: bool,
     /// hand already processed invitations over again (same wrapper id) now and then (C16)
     pub reprocess_welcomes: bool,
+    /// announce encrypted media in messages (C17)
+    pub media: bool,
     pub hostile_hook: Option<fn(&mut Gen, &mut World) -> Option<Step>>,
 }
 
@@ -262,6 +264,7 @@ impl Gen {
             invited: BTreeSet::new(),
             ex_members_send: false,
             reprocess_welcomes: false,
+            media: false,
             hostile_hook: None,
         }
     }
@@ -479,7 +482,7 @@ impl Gen {
                     }
                     self.msg_tag += 1;
                     let ts_back = [0u32, 0, 0, 1, 2, 3][self.sched.below(6) as usize];
-                    { let kind = if self.sched.chance(1, 5) { 7 } else { 9 }; let tag = self.msg_tag; Some(self.mk(w, node, dt, Op::SendMsg { g, tag, ts_back, kind, imeta: false })) }
+                    { let kind = if self.sched.chance(1, 5) { 7 } else { 9 }; let tag = self.msg_tag; let imeta = self.media && self.sched.chance(1, 2); Some(self.mk(w, node, dt, Op::SendMsg { g, tag, ts_back, kind, imeta })) }
                 }
                 1 => {
                     if !w.is_active_member(node, g) || w.has_pending_commit(node, g) {
